@@ -138,6 +138,24 @@ pub mod rt {
     }
   }
 
+  /// A handle to the calling thread whose `unpark` goes through the runtime,
+  /// so a harness can build executors (`block_on`) that park under the scheduler.
+  #[derive(Clone, Debug)]
+  pub struct Parker(super::thread::Thread);
+
+  impl Parker {
+    pub fn current() -> Self {
+      Parker(super::thread::current())
+    }
+    pub fn unpark(&self) {
+      self.0.unpark()
+    }
+    /// Parks the calling thread (through the runtime when one is installed).
+    pub fn park() {
+      super::thread::park()
+    }
+  }
+
   #[inline]
   pub(crate) fn event(kind: Kind, var: Option<Var>, at: &'static Location<'static>) -> Event {
     Event {
